@@ -6,6 +6,8 @@
                               object exposing get_type/get_version/pack -> outputs (hex|ERR:<exc>) joined by ',', final counter
   CLASSES                     names of registered payload classes whose default instance packs
   ENCOBJ <seq0> <src> <Class> encode a default instance -> "<out hex> <type> <version> <payload hex>"
+  VV <hdrmsg hex> <off> <buf hex>...  one MessageHeader parsed from hdrmsg, validate_crc(buf, off) on each buffer in turn
+                              -> outcomes joined by ',', then the header's crc and payload_size_bytes afterwards
   B <hex> / E <off> <xorhex> ...  analysis of the (corrupted) base: V=<ok|big|notenough|mismatch|short> D=<off:len;...|->
                               V: MessageHeader().unpack(buf, validate_crc=True); D: FusionEngineDecoder().on_data(buf)
 """
@@ -105,6 +107,19 @@ def main():
                 enc.sequence_number = int(w[1])
                 data = enc.encode_message(o, int(w[2]))
                 r = '%s %d %d %s' % (bytes(data).hex(), int(o.get_type()), int(o.get_version()), bytes(o.pack()).hex() or '-')
+            elif w[0] == 'VV':
+                # one header object (parsed from w[1]) validating a sequence of buffers at offset w[2]
+                h = MessageHeader()
+                h.unpack(unhex(w[1]), warn_on_unrecognized=False)
+                off, rs = int(w[2]), []
+                for bx in w[3:]:
+                    try:
+                        h.validate_crc(unhex(bx), off)
+                        rs.append('ok')
+                    except ValueError as e:
+                        t = str(e)
+                        rs.append('big' if 'sanity' in t else ('notenough' if 'Not enough data' in t else 'mismatch' if 'CRC mismatch' in t else 'ValueError'))
+                r = ','.join(rs) + ' %d %d' % (h.crc, h.payload_size_bytes)
             elif w[0] == 'B':
                 base = unhex(w[1])
                 r = analysis(base)
